@@ -88,7 +88,8 @@ def check_proofs(mod, rep: Report):
             good += 1
     if len(blocks) != len(names):
         broken.append(f"{len(names)} theorems but {len(blocks)} Print Assumptions blocks in {mod.PROPS_FILE}")
-    srcs = [p for sub in ("Lib", "Model", "Gen", "Proofs", "Props") for p in (COQ / sub).glob("*.v")]
+    srcs = common.lk_closure(props)
+    rep.coverage["files_checked"] = [str(p.relative_to(COQ)) for p in srcs]
     for b in common.scan_forbidden(srcs):
         broken.append("forbidden construct: " + b)
         good = 0
